@@ -279,6 +279,11 @@ def showEvent : Event → String
   | .warnLength => "W:len"
   | .raised e => "E:" ++ (showErr e).replace " " "-"
 
+/-- A run that left the model's regime anywhere is reported as a whole as `unsupported`. -/
+def showEvents (hd : String) (evs : List Event) : String :=
+  if evs.any (fun e => match e with | .raised .unsupported => true | _ => false) then "unsupported"
+  else hd ++ String.join (evs.map (fun e => " " ++ showEvent e))
+
 def hexList2? : SExp → Option (List Bytes)
   | .list xs => xs.mapM SExp.hex?
   | _ => none
@@ -337,7 +342,7 @@ def opsXtce (op : String) (args : List SExp) : Option String :=
       let total := (chunks.map List.length).foldl (· + ·) 0
       pure (unsup d fun d =>
         let evs := packetGenerator d (root.getD d.root) o ⟨skip, TRIM_THRESHOLD⟩ (initFile chunks total)
-        "events" ++ String.join (evs.map (fun e => " " ++ showEvent e)))
+        showEvents "events" evs)
   | "genxml", [_xml, d, root, .list [pb, ho, cb, sh, yu], skip, SExp.atom kind, _r, chunks] => do
       let d ← parseDef d; let root ← root.optStr?
       let o : GenOpts := { parseBad := ← pb.bool?, headersOnly := ← ho.bool?, combine := ← cb.bool?,
@@ -349,7 +354,7 @@ def opsXtce (op : String) (args : List SExp) : Option String :=
                else if kind == "socket" then some (initSocket chunks) else none
       pure (unsup d fun d =>
         let evs := packetGenerator d (root.getD d.root) o ⟨skip, TRIM_THRESHOLD⟩ st
-        "events" ++ String.join (evs.map (fun e => " " ++ showEvent e)))
+        showEvents "events" evs)
   | "gensched", [d, root, .list [pb, ho, cb, sh, yu], skip, .list srcs, _sched] => do
       let d ← parseDef d; let root ← root.optStr?
       let o : GenOpts := { parseBad := ← pb.bool?, headersOnly := ← ho.bool?, combine := ← cb.bool?,
@@ -360,8 +365,8 @@ def opsXtce (op : String) (args : List SExp) : Option String :=
         let outs := srcs.map (fun chunks =>
           let total := (chunks.map List.length).foldl (· + ·) 0
           let evs := packetGenerator d (root.getD d.root) o ⟨skip, TRIM_THRESHOLD⟩ (initFile chunks total)
-          "G" ++ String.join (evs.map (fun e => " " ++ showEvent e)))
-        "sched " ++ " | ".intercalate outs)
+          showEvents "G" evs)
+        if outs.contains "unsupported" then "unsupported" else "sched " ++ " | ".intercalate outs)
   | "const", [.atom "ops"] =>
       some ("ok " ++ " ".intercalate (validOperators.map (fun (s, o) =>
         "s" ++ (showHex s.toUTF8.toList).drop 1 ++ ":" ++ (match o with
